@@ -400,6 +400,14 @@ theorem length_limiting_leaves_a_fitting_code_alone (max : Nat) (A : List Int) (
 open Model.HuffLimit in
 example : enforce [0, 1, 1, 1, 2] 5 3 = [0, 1, 0, 4, 2] ∧ kraft [1, 0, 4] = 2 ^ 3 ∧ kraft [1, 1, 1, 2] = 2 ^ 4 := by decide
 
+-- a code of depth 20 (lengths 1, 2, …, 19, 20, 20: 21 symbols, complete) limited to 15 bits: the seven
+-- codes longer than 14 bits are folded into length 15 (weight 2^15 + 5), five rounds repair it
+open Model.HuffLimit in
+example : enforce ([0] ++ List.replicate 19 1 ++ [2] ++ List.replicate 12 0) 21 15 =
+      [0, 1, 1, 1, 1, 1, 1, 1, 1, 1, 1, 1, 0, 2, 0, 8] ++ [1, 1, 1, 1, 2] ++ List.replicate 12 0 ∧
+    kraft (List.replicate 19 1 ++ [2] ++ List.replicate 12 0) = 2 ^ 32 ∧
+    kraft [1, 1, 1, 1, 1, 1, 1, 1, 1, 1, 1, 0, 2, 0, 8] = 2 ^ 15 := by decide
+
 -- the packer on a list with a long zero run, a run of equal sizes and a short tail
 open Model.Core Model.Rle in
 example : (applyAll #[] (rlePack ([8] ++ List.replicate 140 0 ++ List.replicate 7 5 ++ [0, 0, 3]))).toList =
